@@ -58,7 +58,8 @@ def concretize(ex, v, model, heap, depth=0):
     if isinstance(v, VTuple):
         return {'$tuple': [concretize(ex, x, model, heap, depth + 1) for x in v.items]}
     if isinstance(v, VOpaque):
-        return {'$ref': str(ev(v.t)), 'cls': v.cls}
+        from .models import absval
+        return {'$ref': str(ev(v.t)), 'cls': v.cls, 'absval': str(ev(absval(v.t)))}
     if isinstance(v, VClass):
         return {'$class': v.name}
     if isinstance(v, VPtr):
@@ -370,7 +371,7 @@ def main(argv=None):
             confirmed = None
             rscript = os.path.join(VERIF, 'replay', f'{pid}.py')
             if o.get('replay') is not None:
-                confirmed = bool(o['replay'].get('confirmed'))
+                confirmed = None if o['replay'].get('confirmed') is None else bool(o['replay'].get('confirmed'))
                 rp['replay_result'] = o['replay']
             elif os.path.exists(rscript) and o.get('inputs') is not None:
                 payload = {'function': owner, 'obligation': o['name'], 'inputs': o.get('inputs'),
@@ -378,7 +379,7 @@ def main(argv=None):
                 rp['replay_payload'] = payload
                 res = run_venv(rscript, payload, timeout=120)
                 rp['replay_result'] = res
-                if 'confirmed' in res:
+                if res.get('confirmed') is not None:
                     confirmed = bool(res['confirmed'])
             h = hashlib.sha256(o['name'].encode()).hexdigest()[:10]
             rpath = os.path.join(VERIF, 'replays', f'{pid}_{h}.json')
